@@ -327,6 +327,35 @@ impl Check for C03 {
                 run_one(run, 6000 + i, l, &scene);
             }
         });
+        // I: a mask of more than 65536 bytes on a surface of more than 65536 pixels
+        run.bound("large mask", "300x300 mask (coverage with periods 251 / 241 along rows / columns) at (0,0) and (-7,13) x 4 modes x 2 sources x 2 contexts on 300x300".to_string());
+        run.par(4, |i, l| {
+            let mode = [BlendMode::SrcOver, BlendMode::Src, BlendMode::Xor, BlendMode::DstIn][i];
+            let data: Vec<u8> = (0..90000u32).map(|k| [0u8, 255, 128, 1, 254, 64, 200][(((k % 300) % 251 + (k / 300) % 241) % 7) as usize]).collect();
+            for src in [SrcSpec::Solid(0x80402010), SrcSpec::Image { w: 5, h: 3, data: image_of(5, 3, &VALS12, 1), repeat: true, bilinear: false, xf: IDENT }] {
+                for (mx, my) in [(0, 0), (-7, 13)] {
+                    for ctx in 0..2 {
+                        let mut ops = Vec::new();
+                        if ctx == 1 {
+                            ops.push(Op::PushClip(PathSpec::poly(&[(3.5, 1.0), (298.0, 40.25), (250.5, 299.0), (10.25, 200.0)])));
+                        }
+                        // mask() composites with SrcOver; other modes go through a masked layer
+                        if mode == BlendMode::SrcOver {
+                            ops.push(Op::Mask(mx, my, 300, 300, data.clone(), src.clone()));
+                        } else {
+                            ops.push(Op::PushLayer(1.0, mode));
+                            ops.push(Op::Mask(mx, my, 300, 300, data.clone(), src.clone()));
+                            ops.push(Op::PopLayer);
+                        }
+                        if ctx == 1 {
+                            ops.push(Op::PopClip);
+                        }
+                        let scene = Scene { w: 300, h: 300, dst: dst_cols(300, 300, &VALS12, 1), ops };
+                        run_one(run, 7000 + i, l, &scene);
+                    }
+                }
+            }
+        });
         super::mixed::explore_mixed(run, "C03", owns, if deep { 6 } else { 5 }, false);
     }
 
